@@ -48,6 +48,17 @@ Fixpoint select (mask : list bool) (obs : list nat) : list nat :=
   end.
 Definition same_when_run (a b : nat) : bool := Nat.eqb a 3 || Nat.eqb b 3 || Nat.eqb a b.
 
+(* the reference verdict: the declarative semantics of the schema files, decided by [validate] (validate_iff_Valid);
+   computed three-valued so that a schema which has left the modelled fragment (unmodelled keyword, unresolvable $ref)
+   yields no reference where the verdict depends on the unknown part — there the entry points must still agree with
+   each other — but still yields one where the rest of the schema decides *)
+Definition ref3 (s : schema) (d : doc) : option nat := option_map verdict_code (validate3 s d).
+Definition agree (r : option nat) (obs : list nat) : bool :=
+  match r with
+  | Some v => ran_all (Nat.eqb v) obs
+  | None => match filter (fun x => negb (Nat.eqb x 3)) obs with [] => true | x :: rest => forallb (Nat.eqb x) rest end
+  end.
+
 Definition oracle17 (c : case17) : bool :=
   match c with
   | C17 k d obs =>
@@ -56,11 +67,11 @@ Definition oracle17 (c : case17) : bool :=
       same_when_run (nth 0 obs 3) (nth 1 obs 3) && same_when_run (nth 4 obs 3) (nth 3 obs 3) &&
       match k with
       | KBuiltin =>
-          let r := verdict_code (validate builtin d) in
-          ran_all (Nat.eqb r) (select funnel17 obs) && (negb (contents_ok d) || ran_all (Nat.eqb r) obs)
+          let r := ref3 builtin d in
+          agree r (select funnel17 obs) && (negb (contents_ok d) || agree r obs)
       | KVariant s =>
-          let r := verdict_code (validate s d) in
-          ran_all (Nat.eqb r) (select funnel17 obs) && (negb (contents_ok d && top_decodable d) || ran_all (Nat.eqb r) obs)
+          let r := ref3 s d in
+          agree r (select funnel17 obs) && (negb (contents_ok d && top_decodable d) || agree r obs)
       | KNop =>
           ran_all (Nat.eqb 0) (select funnel17 obs) && (negb (contents_ok d && top_decodable d) || ran_all (Nat.eqb 0) obs)
       | KNil =>
